@@ -46,7 +46,9 @@ def meta_case(draw):
     K = len(scene["centers"])
     mode = draw(st.sampled_from(["centers", "centers", "ids", "num", "catalog"]))  # catalog: patch_centers=<another Catalog>
     perm = draw(st.permutations(list(range(K))))
-    case = {"scene": scene, "mode": mode, "perm": list(perm), "empty_centre_at": None}
+    # the catalog is looked at as returned, or reopened with several workers whose tasks finish in
+    # a tape-chosen order (the accessors are per patch index whatever the loading order was)
+    case = {"scene": scene, "mode": mode, "perm": list(perm), "empty_centre_at": None, "reopen_workers": draw(st.sampled_from([None, None, 2, 3, 4])), "tape": draw(st.lists(st.integers(0, 5), max_size=10))}
     if mode == "centers" and draw(st.sampled_from([False, False, True])):
         case["empty_centre_at"] = draw(st.integers(0, K))  # position in the centre list
     if mode == "num":
@@ -106,6 +108,16 @@ def run_meta(case):
             ck.fail(f"create|{exc_sig(e)}", f"{type(e).__name__}: {e}")
             return ck.results()
 
+        if case.get("reopen_workers"):
+            from vlib import schedpool
+
+            try:
+                with schedpool.Patched(case["tape"]) as fake:
+                    catalog = Catalog(tmp / "c", max_workers=case["reopen_workers"])
+            except Exception as e:  # noqa
+                ck.fail(f"reopen|{exc_sig(e)}", f"{type(e).__name__}: {e}")
+                return ck.results()
+            ck.cls("reopened-with-workers" + (":non-identity-order" if fake.tape.nontrivial else ""))
         stored = sources.stored_records(catalog)
         keys = sorted(catalog.keys())
         got_centers = np.asarray(catalog.get_centers().data, float)
